@@ -59,6 +59,7 @@ type FuncContract struct {
 	PanicFree bool
 	Budget   int // solver seconds per obligation (0 = tier default)
 	Forget   map[string]bool
+	Opaque   map[string]bool // callees treated as opaque inside this function: havocked, contract neither checked nor assumed
 	FrameOnly bool // only frame/initialisation obligations (no SMT obligations are generated)
 	Requires []*Clause
 	Assumes  []*Clause
@@ -110,7 +111,7 @@ type Contracts struct {
 	File    string
 }
 
-var keywordRe = regexp.MustCompile(`^(spec|axiom|lemma|func|props|tier|arith|pure|inline|trusted|nosafety|requires|ensures|expect|panics|modifies|loop|ghost|assert|replaces|initfields|frameonly|budget|panicfree|assumes|maypanic|floats|forget)\b`)
+var keywordRe = regexp.MustCompile(`^(spec|axiom|lemma|func|props|tier|arith|pure|inline|trusted|nosafety|requires|ensures|expect|panics|modifies|loop|ghost|assert|replaces|initfields|frameonly|budget|panicfree|assumes|maypanic|floats|forget|opaque)\b`)
 var labelRe = regexp.MustCompile(`^\[([A-Za-z0-9_.\-]+)\]\s*`)
 
 func (c *Contracts) newClause(kind, text string, line int) *Clause {
@@ -250,6 +251,16 @@ func ParseContracts(path string) (*Contracts, error) {
 				}
 				for _, v := range strings.Fields(rest) {
 					cur.Forget[v] = true
+				}
+			case "opaque":
+				// opaque F...: calls of F inside this function are havocked (results unconstrained, everything F may
+				// write is fresh); F's preconditions are not checked here and its postconditions are not assumed -
+				// sound, and used where a callee's precondition is a sweep invariant this function cannot establish
+				if cur.Opaque == nil {
+					cur.Opaque = map[string]bool{}
+				}
+				for _, v := range strings.Fields(rest) {
+					cur.Opaque[v] = true
 				}
 			case "maypanic":
 				// the function may propagate a documented panic of a callee whose condition cannot be
